@@ -269,6 +269,7 @@ private theorem extendOne_frame (cfg : Cfg) (ext : Ext) (N Nin : List (String ×
     (t : TypeO) (na : Addr) (hna : h0.size ≤ na) : Frame h0 (extendOne cfg ext N Nin h t na) := by
   simp only [extendOne]
   apply write_fresh_frame _ _ _ hna
+  simp only [extendKids]
   split
   · exact buildArgs_frame Nin h0 _ (extendArgs_frame _ N h0 h f _) _
   · exact buildFields_frame N h0 _ (extendFields_frame cfg N h0 h f _) _
